@@ -148,10 +148,19 @@ def manifest(hext: bool, mexists: bool, mok: bool, stub0: bool, stub1: bool, ext
         exts[0] = dict(ext, is_stub_container=stub0)
     if hext:
         exts[newest] = dict(ext, is_stub_container=(stub1 if n == 2 else stub0))
+    # The manifest that counts is the one of the newest *committed* container (an uncommitted patch on top has
+    # none yet: extension and hashsum are written in one user-block write, so "uncommitted with extension" is
+    # not a reachable state). Manifest histories under an uncommitted patch: vt/mfhist.py (public API).
+    uncommitted_top = n == 2 and h1 == 0
+    if uncommitted_top and hext:
+        return True
     reach()
     got = _open(IH5MFRecord, blocks, exts=exts, manifest=("/d/f%d.ih5mf.json" % newest, mexists, mok))
     exp = coherent(blocks)
-    if hext and not (mexists and mok):
+    if uncommitted_top:
+        if ext0:
+            exp = False  # (the sidecar of container 0 does not exist in this scenario)
+    elif hext and not (mexists and mok):
         exp = False
     if n == 2 and hext and stub1:
         return got in ("refused", "assert")  # a stub on top of something else is refused
